@@ -501,6 +501,19 @@ fn many_assets_case(cfg: &Cfg, worker: u64, idx: u64, rep: &mut Report) {
     for a in first..(first + n).min(world.assets.len()) {
         spec.predicates.push((code.clone(), vec![], a, 10 + a as u64, 0));
     }
+    if !with_base {
+        // no input carries the base asset: a base-asset change output and an empty data
+        // message (retryable amount 0) are legal all the same
+        if rng.bool() {
+            spec.change.push(0);
+        }
+        if rng.bool() && spec.predicates.len() < max_inputs {
+            spec.messages.push((0, 0, vec![1, 2, 3]));
+        }
+        if rng.bool() {
+            spec.script = fuel_asm::op::rvrt(fuel_asm::RegId::ONE).to_bytes().to_vec();
+        }
+    }
     let replay = json!({"kind": "many-assets", "seed": cfg.seed, "worker": worker, "index": idx, "inputs": spec.predicates.len(), "with_base_asset_input": with_base});
     // estimate predicate gas, then check and execute
     let tx = {
